@@ -1015,6 +1015,13 @@ func (k *c12run) surrPair(e *c12env, docs string, x, y *gedcom.IndividualNode, o
 	w, wr := s.WeightedSimilarity(), sr.WeightedSimilarity()
 	k.bounds("surrounding similarity component", in, s.ParentsSimilarity, s.IndividualSimilarity, s.SpousesSimilarity, s.ChildrenSimilarity)
 	k.bounds("weighted similarity", in, w, wr)
+	if c12inUnit(s.IndividualSimilarity) && c12inUnit(s.ParentsSimilarity) && c12inUnit(s.SpousesSimilarity) && c12inUnit(s.ChildrenSimilarity) &&
+		g.IndividualWeight >= 0 && g.ParentsWeight >= 0 && g.SpousesWeight >= 0 && g.ChildrenWeight >= 0 {
+		c.Tie(fmt.Sprintf("weightedf %s %s %s %s %s %s %s %s", c05f64(s.IndividualSimilarity), c05f64(s.ParentsSimilarity),
+			c05f64(s.SpousesSimilarity), c05f64(s.ChildrenSimilarity), c05f64(g.IndividualWeight), c05f64(g.ParentsWeight),
+			c05f64(g.SpousesWeight), c05f64(g.ChildrenWeight)), c05f64(w))
+		c.Count("weightedf")
+	}
 	k.symm("parents similarity", in, s.ParentsSimilarity, sr.ParentsSimilarity)
 	k.symm("individual similarity", in, s.IndividualSimilarity, sr.IndividualSimilarity)
 	for _, p := range [][2]float64{{s.SpousesSimilarity, sr.SpousesSimilarity}, {s.ChildrenSimilarity, sr.ChildrenSimilarity}, {w, wr}} {
@@ -1053,6 +1060,56 @@ func (k *c12run) subset(d *c12doc) gedcom.IndividualNodes {
 		xs = append(xs, d.indis[r.Intn(len(d.indis))]) // duplicates on purpose: the winner loop keys on the pointer
 	}
 	return xs
+}
+
+// c12identicalGed: a person with parents, a spouse and a child; compared with a second decode of the
+// same text every component of the surrounding similarity is exactly 1, so the weighted similarity
+// is the float64 sum of the four weights themselves.
+const c12identicalGed = "0 @I1@ INDI\n1 NAME John /Smith/\n1 BIRT\n2 DATE 4 Mar 1900\n1 DEAT\n2 DATE 5 Jun 1970\n1 FAMC @F0@\n1 FAMS @F1@\n" +
+	"0 @I2@ INDI\n1 NAME Jane /Doe/\n1 BIRT\n2 DATE 1 Apr 1902\n1 DEAT\n2 DATE 7 Jul 1980\n1 FAMS @F1@\n" +
+	"0 @I3@ INDI\n1 NAME Bob /Smith/\n1 BIRT\n2 DATE 9 Sep 1925\n1 DEAT\n2 DATE 1 Jan 1999\n1 FAMC @F1@\n" +
+	"0 @I4@ INDI\n1 NAME Pa /Smith/\n1 BIRT\n2 DATE 1 Jan 1870\n1 DEAT\n2 DATE 1 Jan 1940\n1 FAMS @F0@\n" +
+	"0 @I5@ INDI\n1 NAME Ma /Jones/\n1 BIRT\n2 DATE 1 Jan 1872\n1 DEAT\n2 DATE 1 Jan 1950\n1 FAMS @F0@\n" +
+	"0 @F0@ FAM\n1 HUSB @I4@\n1 WIFE @I5@\n1 CHIL @I1@\n0 @F1@ FAM\n1 HUSB @I1@\n1 WIFE @I2@\n1 CHIL @I3@\n"
+
+// weightSweep: every weight vector (a,b,c,d)/20 with a+b+c+d = 20 (and /10, /8 for other binary
+// expansions) on a pair whose four components are all exactly 1, and on pairs with some components
+// at the neutral 0.5: the weighted similarity is then a pure float64 sum of products of the weights,
+// which must stay inside [0,1] (a score, not "about one").
+func (k *c12run) weightSweep() {
+	c := k.c
+	d1, err1 := gedcom.NewDecoder(strings.NewReader(c12identicalGed)).Decode()
+	d2, err2 := gedcom.NewDecoder(strings.NewReader(c12identicalGed)).Decode()
+	if err1 != nil || err2 != nil {
+		return
+	}
+	for _, den := range []int{20, 10, 8} {
+		for a := 0; a <= den; a++ {
+			for b := 0; a+b <= den; b++ {
+				for cc := 0; a+b+cc <= den; cc++ {
+					dd := den - a - b - cc
+					for _, ptr := range []string{"I1", "I3", "I4"} { // full surroundings / no children, no spouse / no parents
+						x, y := d1.Individuals().ByPointer(ptr), d2.Individuals().ByPointer(ptr)
+						o := gedcom.NewSimilarityOptions()
+						o.IndividualWeight, o.ParentsWeight = float64(a)/float64(den), float64(b)/float64(den)
+						o.SpousesWeight, o.ChildrenWeight = float64(cc)/float64(den), float64(dd)/float64(den)
+						s := x.SurroundingSimilarity(y, o, true)
+						w := s.WeightedSimilarity()
+						in := map[string]interface{}{"document": "a person with parents, spouse and child, against a second decode of the same text",
+							"individual": ptr, "weights (individual, parents, spouses, children)": fmt.Sprintf("%d/%d %d/%d %d/%d %d/%d", a, den, b, den, cc, den, dd, den),
+							"components": fmt.Sprintf("%v %v %v %v", s.IndividualSimilarity, s.ParentsSimilarity, s.SpousesSimilarity, s.ChildrenSimilarity)}
+						k.bounds("weighted similarity", in, w)
+						// the float64 formula itself against the binary64 model, bit for bit
+						c.Tie(fmt.Sprintf("weightedf %s %s %s %s %s %s %s %s", c05f64(s.IndividualSimilarity), c05f64(s.ParentsSimilarity),
+							c05f64(s.SpousesSimilarity), c05f64(s.ChildrenSimilarity), c05f64(o.IndividualWeight), c05f64(o.ParentsWeight),
+							c05f64(o.SpousesWeight), c05f64(o.ChildrenWeight)), c05f64(w))
+						c.Eval()
+						c.Count("weighted:weight-sweep")
+					}
+				}
+			}
+		}
+	}
 }
 
 func (k *c12run) graphs() {
@@ -1655,6 +1712,7 @@ func init() {
 		k.strings()
 		k.dates()
 		k.graphs()
+		k.weightSweep()
 		k.sharedLists()
 		k.tieShapes()
 		k.longNames()
